@@ -164,6 +164,7 @@ def one_case(ctx, r, desc):
             if rq not in paths:
                 ren = (rp, rq)
         fin = (lambda x: ren[1] if ren and x == ren[0] else x)
+        fin_inv = (lambda x: ren[0] if ren and x == ren[1] else x)
         is_hidden = (lambda x: any(seg.startswith(".") for seg in x.split("/")))
         paths_base = paths
         paths = sorted(fin(x) for x in paths_base)
@@ -199,6 +200,14 @@ def one_case(ctx, r, desc):
                 # a file that will appear in the diff stays valid UTF-8 (a diff with invalid UTF-8 is
                 # rejected as a whole, which is outside this property)
                 files[p] = poisoned(p, r, utf8_only=p in diff_base)
+        if scope and r.random() < 0.06:
+            # one in-scope file is large (1.3 MB of ordinary lines after its block): size is no reason to leave a file out
+            bigc = sorted(fin_inv(x) for x in scope if fin_inv(x) in files and x != probe)
+            bigp = r.choice(bigc) if bigc else None
+        else:
+            bigp = None
+        if bigp:
+            files[bigp] = files[bigp] + (b"\n" if _ext(bigp) == "md" else b"") + ((("pad " * 250 + "\n\n") if _ext(bigp) == "md" else ("%s " % OPENER[_ext(bigp)] + "pad " * 250 + "\n")) * 1300).encode()
         run.write_files(root, files)
         # some files are symbolic links to regular files kept in a hidden directory (never walked): a link is a file
         # under the root like any other, in scope or not by its own path
@@ -252,8 +261,10 @@ def one_case(ctx, r, desc):
             stdin, env = None, dict(TERM)
         else:
             stdin, env = diff, {}
-        lst = run.run(ctx.bin("rel"), ["list"] + argv, cwd, stdin=stdin, env=env)
-        res = run.run(ctx.bin("rel"), argv, cwd, stdin=stdin, env=env)
+        if r.random() < 0.1:
+            env = dict(env, HOME=r.choice([root, cwd]))      # the home directory is the repository (or the start directory) itself
+        lst = run.run(ctx.bin("rel"), ["list"] + argv, cwd, stdin=stdin, env=env, cpu_limit=60)
+        res = run.run(ctx.bin("rel"), argv, cwd, stdin=stdin, env=env, cpu_limit=60)
     finally:
         run.rm(root)
     # -- judge -------------------------------------------------------------------------------
